@@ -30,6 +30,8 @@ func main() {
 		cmdSSA(os.Args[2:])
 	case "list":
 		cmdList(os.Args[2:])
+	case "locals":
+		cmdLocals(os.Args[2:])
 	case "effects":
 		cmdEffects(os.Args[2:])
 	case "replay":
@@ -277,6 +279,7 @@ func (ck *Checker) collect() {
 				m.LoopInv = own.LoopInv
 				m.LoopVar = own.LoopVar
 				m.Uses = append(append([]string{}, sc.Uses...), own.Uses...)
+				m.LocalAlias = own.LocalAlias
 				if own.SlotOf != nil {
 					m.SlotOf = own.SlotOf
 				}
@@ -627,4 +630,85 @@ func runCanaries(prop, repo string) []map[string]any {
 		os.RemoveAll(tmp)
 	}
 	return out
+}
+
+// cmdLocals prints (for the contract files) which local each local name used in a contract denotes
+// on the current tree: `local <name> <k> <type>` = the k-th named local of that type in source order.
+// The output is committed as contracts_zz_locals_verif.go; it is only consulted when a contract
+// names a local that no longer exists (a renamed local is then found by type and position).
+func cmdLocals(args []string) {
+	repo := "/repo"
+	if len(args) > 0 {
+		repo = args[0]
+	}
+	p, c, err := loadAll(repo)
+	if err != nil {
+		fmt.Println("ERROR loading:", err)
+		os.Exit(2)
+	}
+	out := map[string]*strings.Builder{"": {}, "main": {}}
+	for _, name := range c.SortedFuncNames() {
+		fc := c.Funcs[name]
+		if fc.Extern || fc.Slot {
+			continue
+		}
+		fn := p.Lookup(name)
+		if fn == nil || fn.Blocks == nil {
+			continue
+		}
+		ids := map[string]bool{}
+		add := func(cls []*Clause) {
+			for _, cl := range cls {
+				for _, id := range identsOf(cl.Expr) {
+					ids[id] = true
+				}
+			}
+		}
+		add(fc.Requires)
+		add(fc.Ensures)
+		add(fc.Asserts)
+		add(fc.Promises)
+		for _, cls := range fc.LoopInv {
+			add(cls)
+		}
+		for _, cls := range fc.LoopStep {
+			add(cls)
+		}
+		for _, cls := range fc.LoopVar {
+			add(cls)
+		}
+		for _, cls := range fc.LoopAssume {
+			add(cls)
+		}
+		for _, m := range fc.Modifies {
+			for _, id := range identsOf(m.Expr) {
+				ids[id] = true
+			}
+		}
+		for v := range fc.SlotOf {
+			ids[v] = true
+		}
+		names, typs := namedLocals(fn)
+		count := map[string]int{}
+		var lines []string
+		for i, n := range names {
+			count[typs[i]]++
+			if ids[n] {
+				lines = append(lines, fmt.Sprintf("//@   local %s %d %s", n, count[typs[i]], typs[i]))
+			}
+		}
+		if len(lines) == 0 {
+			continue
+		}
+		pk := ""
+		short := name
+		if strings.HasPrefix(name, "main.") {
+			pk, short = "main", strings.TrimPrefix(name, "main.")
+		}
+		fmt.Fprintf(out[pk], "//@ func %s\n%s\n", short, strings.Join(lines, "\n"))
+	}
+	hdr := "//go:build verif\n\n// GENERATED by `govc locals` - do not edit. For every local variable that a contract mentions by\n// name: its position among the named locals of its type. Consulted only when a contract names a\n// local that no longer exists, so that renaming a local does not break the proofs.\n\npackage %s\n\n%s//@ group\n"
+	os.WriteFile(filepath.Join(repo, "contracts_zz_locals_verif.go"), []byte(fmt.Sprintf(hdr, "bcl", "")+out[""].String()), 0o644)
+	os.WriteFile(filepath.Join(repo, "cmd/bcl/contracts_zz_locals_verif.go"), []byte(fmt.Sprintf(hdr, "main", "//@ pkg main\n")+out["main"].String()), 0o644)
+	fmt.Println("written")
 }
